@@ -9,6 +9,8 @@ import (
 
 	"k8s.io/cli-runtime/pkg/resource"
 
+	"github.com/np-guard/netpol-analyzer/pkg/netpol/connlist"
+
 	"verif/fw"
 	"verif/wm"
 )
@@ -47,10 +49,20 @@ func baseWorlds() []*wm.World {
 		{NSs: nss, WLs: wls(),
 			ANPs: []wm.ANP{{Name: "a", Prio: 5, Subject: wm.APeer{PodsNS: all, PodsPod: wm.ML("app", "a")}, Egress: []wm.ARule{{Action: "Deny", Peers: []wm.APeer{{PodsNS: all, PodsPod: wm.ML("app", "b")}}, Ports: &[]wm.APort{{Kind: "named", Name: "http"}}}}}},
 			BANP: &wm.ANP{Name: "default", Subject: wm.APeer{Namespaces: wm.ML("team", "a")}, Ingress: []wm.ARule{{Action: "Deny", Peers: []wm.APeer{{Namespaces: wm.ME("team", "DoesNotExist")}}}}}},
+		// policies without any pod / namespace selector in their rules (no representative peer is ever generated), the
+		// governed workload lives in a namespace that has no Namespace object
+		{NSs: nss, WLs: wls(), NPs: []wm.NP{
+			{NS: "ns2", Name: "ipb", PodSel: wm.Sel{}, Types: []string{"Ingress", "Egress"},
+				Ingress: []wm.NPRule{{Peers: []wm.NPPeer{{CIDR: "10.0.0.0/8"}}, Ports: []wm.NPPort{{HasPort: true, Num: 8080}}}},
+				Egress:  []wm.NPRule{{Peers: []wm.NPPeer{{CIDR: "0.0.0.0/0", Except: []string{"10.0.0.0/8"}}}}}}}},
+		{WLs: wls()[2:], NPs: []wm.NP{{NS: "ns2", Name: "deny", PodSel: wm.Sel{}, Types: []string{"Ingress"}}}},
+		// a rule selector that a real workload matches exactly (its representative peer is removed when that workload is inserted)
+		{WLs: wls(), NPs: []wm.NP{{NS: "ns1", Name: "m", PodSel: *wm.ML("app", "b"), Types: []string{"Ingress"}, Ingress: []wm.NPRule{{Peers: []wm.NPPeer{{Pod: wm.ML("app", "a")}}}}}}},
 	}
 }
 
 type Case struct {
+	Order  int // 0: workloads first, 1: workloads last, 2: the re-expressed workload last, 3: reversed workloads first
 	Base   *wm.World
 	WI     int
 	Kind   string
@@ -127,7 +139,34 @@ func eval(cs Case, x *fw.Rec) {
 		ren[nw] = ns + "/" + wl.Name + "[" + wl.Kind + "]"
 		wantPeers = append(wantPeers, nw)
 	}
-	infos = append(expInfos, infos...)
+	switch cs.Order {
+	case 0:
+		infos = append(expInfos, infos...)
+	case 1:
+		infos = append(infos, expInfos...)
+	case 2:
+		var first, last []*resource.Info
+		for i, wl := range base.WLs {
+			k, rp := "Deployment", 1
+			if cs.Kinds != nil {
+				k, rp = cs.Kinds[i], cs.Repls[i]
+			} else if i == cs.WI {
+				k, rp = cs.Kind, cs.Repl
+			}
+			if i == cs.WI {
+				last = wm.Express(wl, k, rp)
+			} else {
+				first = append(first, wm.Express(wl, k, rp)...)
+			}
+		}
+		infos = append(append(first, infos...), last...)
+	default:
+		var rev []*resource.Info
+		for i := len(expInfos) - 1; i >= 0; i-- {
+			rev = append(rev, expInfos[i])
+		}
+		infos = append(rev, infos...)
+	}
 	x.Describe(func() any { return map[string]any{"case": cs.Desc, "manifests": wm.InfoYAML(infos)} })
 	tr, _ := wm.RunList(infos, false)
 	if tr.Err != nil {
@@ -149,6 +188,48 @@ func eval(cs Case, x *fw.Rec) {
 	}
 	x.Nontrivial(cs.Desc)
 	x.Sample(map[string]any{"case": cs.Desc, "peers": workloadPeers(tr)})
+	if len(base.ANPs) > 0 || base.BANP != nil {
+		return // exposure analysis refuses admin policies
+	}
+	// the same with exposure analysis: the whole txt report (connections and exposure sections) modulo the [Kind] suffix
+	wantX, errB := expoReport(base.Infos(), nil)
+	gotX, errX := expoReport(infos, ren)
+	if errB != nil {
+		if !strings.Contains(errB.Error(), "cannot convert named port for an IP destination") {
+			x.Fail("list --exposure fails on a world that plain list analyses", "", cs.Desc+": "+errB.Error())
+		}
+		return
+	}
+	if errX != nil {
+		x.Fail("re-expressed workload makes list --exposure fail: "+kindsOf(cs), "", cs.Desc+": "+errX.Error())
+		return
+	}
+	if gotX != wantX {
+		x.Fail(fmt.Sprintf("exposure report changes when a workload is expressed as %s", kindsOf(cs)), "", fmt.Sprintf("%s\n--- base report\n%s\n--- report after re-expression (peer renamed back)\n%s", cs.Desc, wantX, gotX))
+	}
+	x.Count("exposure_reports_compared", 1)
+}
+
+// expoReport: the txt output of list --exposure as a sorted multiset of lines with peers renamed and padding removed.
+func expoReport(infos []*resource.Info, ren map[string]string) (string, error) {
+	ca := connlist.NewConnlistAnalyzer(connlist.WithLogger(wm.Quiet()), connlist.WithMuteErrsAndWarns(), connlist.WithExposureAnalysis())
+	conns, _, err := ca.ConnlistFromResourceInfos(infos)
+	if err != nil {
+		return "", err
+	}
+	out, err := ca.ConnectionsListToString(conns)
+	if err != nil {
+		return "", err
+	}
+	var lines []string
+	for _, l := range strings.Split(out, "\n") {
+		for a, b := range ren {
+			l = strings.ReplaceAll(l, a, b)
+		}
+		lines = append(lines, strings.Join(strings.Fields(l), " "))
+	}
+	sort.Strings(lines)
+	return strings.Join(lines, "\n"), nil
 }
 
 func kindsOf(cs Case) string {
@@ -257,7 +338,7 @@ func evalShadow(cs Case, x *fw.Rec) {
 }
 
 func Run(r *fw.Run) {
-	r.Rule = "3 base worlds (label + named-port policies; Service + Ingress; ANP + BANP) x each workload x every re-expression: kind in {Deployment, ReplicaSet, StatefulSet, DaemonSet, Job, CronJob, ReplicationController, bare Pods with one controller ownerReference} x replicas/parallelism in {absent,0,1,2,3}; workload-level labels and selectors differ from the pod-template labels; the report must equal the base report modulo the [Kind] suffix, with exactly one peer per workload; plus worlds of distinct workloads whose generated pod names could coincide (every ordered pair of 8 items, replicas 1..2); non-trivial/distinct = each re-expression"
+	r.Rule = "7 base worlds (label + named-port policies; Service + Ingress; ANP + BANP; ipBlock-only and deny-all policies on a workload whose namespace has no Namespace object; a rule selector matched exactly by a real workload) x 4 document orders x each workload x every re-expression: kind in {Deployment, ReplicaSet, StatefulSet, DaemonSet, Job, CronJob, ReplicationController, bare Pods with one controller ownerReference} x replicas/parallelism in {absent,0,1,2,3}; workload-level labels and selectors differ from the pod-template labels; the report must equal the base report modulo the [Kind] suffix, with exactly one peer per workload, and (worlds without admin policies) the txt report of list --exposure must be the same multiset of lines modulo the suffix; plus worlds of distinct workloads whose generated pod names could coincide (every ordered pair of 8 items, replicas 1..2); non-trivial/distinct = each re-expression"
 	r.Assume = []string{"others workloads of the world stay Deployments with 1 replica while one is re-expressed"}
 	if r.Quick() {
 		r.SetBudget(120 * time.Second)
@@ -270,7 +351,8 @@ func Run(r *fw.Run) {
 		wi := c.Choose(len(bases[bi].WLs), "workload")
 		k := fw.Pick(c, wm.ExpressKinds, "kind")
 		rp := fw.Pick(c, []int{-1, 0, 1, 2, 3}, "replicas")
-		return Case{Base: bases[bi], WI: wi, Kind: k, Repl: rp, Desc: fmt.Sprintf("base=%d workload=%s as %s replicas=%d", bi, bases[bi].WLs[wi].PeerString(), k, rp)}
+		ord := c.Choose(4, "document order")
+		return Case{Base: bases[bi], WI: wi, Kind: k, Repl: rp, Order: ord, Desc: fmt.Sprintf("base=%d workload=%s as %s replicas=%d order=%d", bi, bases[bi].WLs[wi].PeerString(), k, rp, ord)}
 	}, eval)
 	fw.Explore(r, "re-expression-all", fw.Full, func(c *fw.Ctx) Case {
 		bi := c.Choose(len(bases), "base world")
@@ -281,7 +363,8 @@ func Run(r *fw.Run) {
 			ks = append(ks, fw.Pick(c, wm.ExpressKinds, "kind"))
 			rs = append(rs, []int{-1, 0, 1, 2, 3}[(i+2*pat+1)%5])
 		}
-		return Case{Base: bases[bi], Kinds: ks, Repls: rs, Desc: fmt.Sprintf("base=%d kinds=%v replicas=%v", bi, ks, rs)}
+		ord := []int{0, 1, 3}[c.Choose(3, "document order")]
+		return Case{Base: bases[bi], Kinds: ks, Repls: rs, Order: ord, WI: -1, Desc: fmt.Sprintf("base=%d kinds=%v replicas=%v order=%d", bi, ks, rs, ord)}
 	}, eval)
 	items := []shadowItem{{"Deployment", "a", 1}, {"StatefulSet", "a", 1}, {"PodBare", "a-1", 1}, {"Deployment", "a-1", 1}, {"Pods", "a", 1}, {"Job", "a", 1}, {"CronJob", "a", 1}, {"DaemonSet", "a", 1}, {"PodBare", "a-pod0", 1}, {"ReplicaSet", "a", 1}}
 	fw.Explore(r, "distinct-workloads", fw.Full, func(c *fw.Ctx) Case {
